@@ -1,10 +1,13 @@
 CONSTANTS
  MaxQ = 1
- Acls = {"allow","deny","both","open"}
+ Acls = {"allow","deny","both","open","stardeny"}
  CacheModes = {TRUE, FALSE}
  MaxEntries = 2
  FixFullText = TRUE
  DevCacheKeyTruncated = FALSE
+ DevKeyCut = "none"
+ DevStarSkipsDeny = FALSE
+ OnlyWide = FALSE
 INIT Init
 NEXT Next
 INVARIANTS EmitFinal
